@@ -108,6 +108,40 @@ example : ∃ e, serve {} { remoteAddr := b "1.2.3.4:5", host := b "foo.com", ur
     e.status = 404 ∧ e.size = 13 ∧ e.upstreamAddr = b "backend" ∧ urlString e.requestURL = b "http://foo.com/a%2Fb" ∧
     requestURI e.upstreamURL = b "/a%2Fb" := ⟨_, rfl, by decide +kernel, by decide +kernel, by decide +kernel, by decide +kernel, by decide +kernel⟩
 example : serve {} { remoteAddr := b "1.2.3.4" } (some {}) [] (.response [] 200 []) = .badRemote := by decide +kernel
+/-! ## an upstream that breaks in the middle of the response body
+
+"Logging never … alters the response" includes how the response ENDS. When the upstream connection breaks after the
+header and part of the body have been relayed, `httputil.ReverseProxy` gives up with `panic(http.ErrAbortHandler)`;
+net/http then tears the client connection down, which is the only way the client can tell a cut body from a whole
+one (a chunked body would otherwise be closed with a regular last chunk). The timing / metrics / logging code that
+`ServeHTTP` runs around the handler must let that abort through. -/
+
+/-- A request that reaches the handler and whose upstream breaks mid-body ends aborted — never as a completed
+request, whatever the logger and the format are — and a request that is answered by the proxy itself is answered
+exactly as with any other upstream behaviour. -/
+theorem cut_upstream_aborts (cfg : Cfg) (r : Req) (t : Option Target) (id : Bytes) (info : List Nat) (st : Nat) (chunks : List Nat) :
+    (reachedHandler (serveOps cfg r t id (upstreamOps (.cut info st chunks))) = true →
+      serve cfg r t id (.cut info st chunks) = .aborted) ∧
+    (reachedHandler (serveOps cfg r t id (upstreamOps (.cut info st chunks))) = false →
+      serve cfg r t id (.cut info st chunks) = serve cfg r t id (.response info st chunks)) := by
+  constructor
+  · intro h; simp [serve, h]
+  · intro h
+    have e : upstreamOps (.cut info st chunks) = upstreamOps (.response info st chunks) := rfl
+    simp only [serve, h]
+    simp [e]
+
+/-- No event (hence no line claiming a completed request) is ever built for a cut response. -/
+theorem cut_upstream_never_logged (cfg : Cfg) (r : Req) (t : Option Target) (id : Bytes) (info : List Nat) (st : Nat)
+    (chunks : List Nat) (e : LogEvent) : serve cfg r t id (.cut info st chunks) ≠ .logged e := by
+  simp only [serve]
+  generalize serveOps cfg r t id (upstreamOps (.cut info st chunks)) = x
+  cases x <;> simp [reachedHandler]
+
+example : serve {} { remoteAddr := b "1.2.3.4:5", host := b "foo.com", url := { path := b "/a" } }
+    (some { scheme := b "http", host := b "backend" }) [] (.cut [] 200 [13]) = .aborted := by decide +kernel
+example : serve {} { remoteAddr := b "1.2.3.4:5" } none [] (.cut [] 200 [13]) = .noRoute := by decide +kernel
+
 example : splitHostPortOk (b "[::1]:80") = true ∧ splitHostPortOk (b "::1") = false ∧ splitHostPortOk (b "a:b:c") = false := by decide +kernel
 
 /-! ## header values that go through `i32toa` / `uint16base16` -/
